@@ -100,6 +100,10 @@ struct Gen {
             if (pi.id == 0x26 && big && rng.chance(1, 40)) reps = (int)rng.range(50, 300);
             for (int r = 0; r < reps; ++r) out.push_back(prop(pi));
         }
+        // MQTT 5 prescribes no order inside a property block: half of the blocks are permuted, so that repeated properties
+        // (User Property, Subscription Identifier) are also met interleaved with others
+        if (out.size() > 1 && rng.chance(1, 2))
+            for (size_t i = out.size() - 1; i > 0; --i) std::swap(out[i], out[rng.below(i + 1)]);
         return out;
     }
     static int prop_count(uint8_t ptype) {
